@@ -166,7 +166,7 @@ pub fn gen_files(rng: &mut Rng, max_files: usize, max_body: usize) -> Files {
     files
 }
 
-pub const REQUIRED: &[&str] = &["empty_archive", "empty_file", "empty_name", "non_ascii_name", "length_multiple_of_32", "variant_names_after_bodies", "variant_bodies_reversed", "many_files"];
+pub const REQUIRED: &[&str] = &["empty_archive", "empty_file", "empty_name", "non_ascii_name", "length_multiple_of_32", "variant_names_after_bodies", "variant_bodies_reversed", "many_files", "poisoned_by_failing_calls_first"];
 
 pub fn run(cx: &mut Ctx) {
     cx.require(REQUIRED);
@@ -191,6 +191,7 @@ pub fn run(cx: &mut Ctx) {
     let quick = cx.a.quick();
     for _ in 0..n {
         cx.case("random", |c| {
+            super::poison::maybe(c, 9);
             let mut rng = c.rng.clone();
             let files = gen_files(&mut rng, if miri { 3 } else { 40 }, if miri { 40 } else if quick { 600 } else { 4096 });
             c.rng = rng;
